@@ -81,6 +81,9 @@ def comp_values(spec, X, a, b):
     if k == "gauss":
         c, m = np.asarray(spec[1], float), np.asarray(spec[2], float)
         return np.exp(-(((T - m) ** 2) @ c))
+    if k == "addgauss":  # sum of one-dimensional Gaussians: surpluses of dimension j live near m_j only
+        c, m = np.asarray(spec[1], float), np.asarray(spec[2], float)
+        return np.sum(np.exp(-c * (T - m) ** 2), axis=1)
     if k == "smooth":  # seeded random smooth function
         r = np.random.RandomState(int(spec[1]) % (2 ** 32))
         out = np.zeros(X.shape[0])
